@@ -167,6 +167,9 @@ func helpOpenOrCreateManifestFile(dir string, readOnly bool, extMagic uint16,
 			_ = fp.Close()
 			return nil, Manifest{}, err
 		}
+		if y.VerifEnabled {
+			y.VerifEvent("fs.truncate", path, truncOffset)
+		}
 	}
 	if _, err = fp.Seek(0, io.SeekEnd); err != nil {
 		_ = fp.Close()
@@ -224,8 +227,16 @@ func (mf *manifestFile) addChanges(changesParam []*pb.ManifestChange, opt Option
 		if _, err := mf.fp.Write(buf); err != nil {
 			return err
 		}
+		if y.VerifEnabled {
+			y.VerifEvent("fs.append", mf.fp.Name(), len(buf))
+		}
 	}
 
+	if y.VerifEnabled {
+		err := syncFunc(mf.fp)
+		y.VerifEvent("fs.sync", mf.fp.Name())
+		return err
+	}
 	return syncFunc(mf.fp)
 }
 
@@ -279,6 +290,10 @@ func helpRewrite(dir string, m *Manifest, extMagic uint16) (*os.File, int, error
 		fp.Close()
 		return nil, 0, err
 	}
+	if y.VerifEnabled {
+		y.VerifEvent("fs.create", rewritePath)
+		y.VerifEvent("fs.sync", rewritePath)
+	}
 
 	// In Windows the files should be closed before doing a Rename.
 	if err = fp.Close(); err != nil {
@@ -287,6 +302,9 @@ func helpRewrite(dir string, m *Manifest, extMagic uint16) (*os.File, int, error
 	manifestPath := filepath.Join(dir, ManifestFilename)
 	if err := os.Rename(rewritePath, manifestPath); err != nil {
 		return nil, 0, err
+	}
+	if y.VerifEnabled {
+		y.VerifEvent("fs.rename", rewritePath, manifestPath)
 	}
 	fp, err = y.OpenExistingFile(manifestPath, 0)
 	if err != nil {
